@@ -31,11 +31,18 @@ def run(ctx):
                                                                 "-classes", "prefix,inflate,subst", "-cap", str(ctx.pick(5, 10))])
     shards = sorted(glob.glob(os.path.join(d, "mut_*.ndjson")))
     total, bad, states, gen = codecfam.judge_dec(ctx, schema, shards, "c06", par=nsh)
+    rejected_valid = []
     for why, r in bad:
         if why == "reference-vs-expected":
             raise Inconclusive("reference disagrees with harness-built value: %s" % json.dumps(r)[:300])
         if why in ("alloc",) or r["k"] != "dec":
             continue  # resource bounds are C05's subject; reuse of the target struct is C04's
+        if why == "rejects-valid":
+            # the statement allows an error on every cut / inflated / substituted input ("fails with an error, or succeeds only
+            # with exactly the value ..."): a rejection of a mutant that happens to be a valid encoding is an observation here;
+            # acceptance of valid encodings is the subject of C02 (round trip) and C03 (unknown fields)
+            rejected_valid.append({"cls": r["cls"], "s": r["s"], "note": r.get("note", ""), "bytes": r["bytes"][:64]})
+            continue
         sig = "C06:%s:%s:%s" % (why, r["cls"], r.get("note", ""))
         if why == "panic":
             pc = codecfam.panic_class(r["panic"])
@@ -72,5 +79,6 @@ def run(ctx):
                 "each embedded length replaced by n+1, remaining+1, 2^31-1, -1, -2^31, n+1000, n-1, each top-level field replaced "
                 "by a well-formed field of each of the other 12 wire types; distinct = distinct (struct, bytes)",
         "corpus_classes": cnt, "worker_deaths": int(deaths),
+        "observations": {"mutants_rejected_although_the_reference_accepts_them": len(rejected_valid), "examples": rejected_valid[:3]},
         "reference_theorems": theorems, "selftest_corrupted_records": st, "exhaustive": False,
     }
